@@ -16,9 +16,6 @@ func (k Keeper) BeginBlocker(ctx context.Context) error {
 	if err := k.DistributeReward(sdkctx); err != nil {
 		return err
 	}
-	if err := k.DequeueMatureUnlocks(sdkctx); err != nil {
-		return err
-	}
 	if err := k.HandleVoteInfos(sdkctx); err != nil {
 		return err
 	}
@@ -30,6 +27,13 @@ func (k Keeper) BeginBlocker(ctx context.Context) error {
 
 func (k Keeper) EndBlocker(ctx context.Context) ([]abci.ValidatorUpdate, error) {
 	sdkctx := sdktypes.UnwrapSDKContext(ctx)
+
+	// matured unlocks are queued for the execution layer at the end of the block:
+	// the block's own execution payload was built (and is verified) against the
+	// queue as it stood when the block was proposed
+	if err := k.DequeueMatureUnlocks(sdkctx); err != nil {
+		return nil, err
+	}
 
 	lastSet := make(map[string]uint64)
 	{
